@@ -392,6 +392,10 @@ def cfgHistorical : Cfg := { fixed := false, coreWatched := false, E := 128, W :
 /-- THE CURRENT TREE: what `Kopf/Tie/C20.lean` proves equal to the facts extracted from the source. -/
 def cfgHead : Cfg := headCfg 128 264 64 32 320
 
+/-- the tree as long as nobody awaits the core task (= `cfgHead` while `headWatchesCore = false`, which
+    `Tie.watches_core_eq` re-checks against the source on every run): the subject of finding C20-F6 -/
+def cfgCoreUnwatched : Cfg := { cfgHead with coreWatched := false }
+
 /-- the tree with the proposed repair of C20-F6 (/tmp/fix-C20core.diff): a root task awaits the core tasks -/
 def cfgProposed : Cfg := { cfgHead with coreWatched := true }
 
@@ -525,10 +529,10 @@ def coreFail : List Label := startAll ++ [.coreEnd .failed]
     the failure is not even one the code escalates (`tFail = none`). The property's "any root task failing
     unrecoverably … stops the whole operator" does not hold for this essential task. -/
 theorem core_failure_lingers_witness (n : Nat) (hn : 0 < n) :
-    ∃ s, runC cfgHead init (coreFail ++ [.delay n]) = some s
+    ∃ s, runC cfgCoreUnwatched init (coreFail ++ [.delay n]) = some s
       ∧ s.core = .failed ∧ s.rt = .waiting ∧ s.result = none ∧ s.now = n ∧ s.tFail = none
       ∧ (∀ r, (s.st (.root r)).live = true) ∧ (∀ r, s.creq (.root r) = false) := by
-  have hp : ∃ s0, runC cfgHead init coreFail = some s0 ∧ quiet s0 = true ∧ urgent cfgHead s0 = false
+  have hp : ∃ s0, runC cfgCoreUnwatched init coreFail = some s0 ∧ quiet s0 = true ∧ urgent cfgCoreUnwatched s0 = false
       ∧ s0.rt = .waiting ∧ s0.core = .failed ∧ s0.result = none ∧ s0.now = 0 ∧ s0.tFail = none
       ∧ (∀ r, (s0.st (.root r)).live = true) ∧ (∀ r, s0.creq (.root r) = false) := by
     refine ⟨_, rfl, by decide, by decide, rfl, by decide, rfl, rfl, rfl, ?_, ?_⟩ <;> (intro r; cases r <;> decide)
@@ -551,7 +555,7 @@ def coreFailEnd : List Label := coreFail ++
 /-- WITNESS about the CURRENT tree, second half of C20-F6: when such an operator is finally stopped (here by its stop
     flag), the core task's error is re-raised BEFORE the cleanup activity — the cleanup handlers never run. -/
 theorem core_failure_skips_cleanup_witness :
-    ∃ s, runC cfgHead init coreFailEnd = some s ∧ s.rt = .exited ∧ s.result = some .raised
+    ∃ s, runC cfgCoreUnwatched init coreFailEnd = some s ∧ s.rt = .exited ∧ s.result = some .raised
       ∧ s.cleanupBegun = false ∧ s.t0 = some 640 :=
   ⟨_, rfl, by decide, by decide, by decide, by decide⟩
 
